@@ -128,8 +128,10 @@ func (e *Engine) eval(st *State, f *Frame, v ssa.Value) Value {
 
 // ---------------------------------------------------------------- running
 
+var frameSeq int64
+
 func (e *Engine) newFrame(fn *ssa.Function, args []Value, bind []Value, retTo ssa.Value) *Frame {
-	f := &Frame{fn: fn, blk: fn.Blocks[0], regs: make(map[ssa.Value]Value, 16), retTo: retTo}
+	f := &Frame{fn: fn, blk: fn.Blocks[0], regs: make(map[ssa.Value]Value, 16), retTo: retTo, id: atomic.AddInt64(&frameSeq, 1)}
 	if len(args) != len(fn.Params) {
 		panic(fmt.Sprintf("call %s: %d args for %d params", fn, len(args), len(fn.Params)))
 	}
@@ -167,7 +169,7 @@ func (e *Engine) run(st *State) (succ []*State) {
 		}
 	}()
 	for {
-		if st.done {
+		if st.done || st.sumDone || st.arrived > 0 {
 			return nil
 		}
 		th := st.thread()
@@ -210,6 +212,27 @@ func (e *Engine) run(st *State) (succ []*State) {
 func (e *Engine) endPath(st *State) {
 	st.done = true
 	atomic.AddInt64(&e.stats.Paths, 1)
+	// vacuity guard: a completed path must have a satisfiable path condition (a contradiction
+	// would mean that a stub or an assumption silently removed behaviour)
+	if st.slv != nil && !st.sumDone && !e.inInit && st.pc != nil && st.pc != st.pcChecked {
+		if st.check(tTrue) == Unsat {
+			e.inconclusive("VACUOUS-PC a path of " + st.harness + " ended with an unsatisfiable path condition")
+		}
+	}
+	if e.verbose {
+		var sb strings.Builder
+		for _, in := range st.inputs {
+			if in.Kind == "choice" || in.Kind == "order" {
+				fmt.Fprintf(&sb, "%s=%d ", in.Name, in.Pick)
+			}
+		}
+		e.mu.Lock()
+		if e.pathHist == nil {
+			e.pathHist = map[string]int{}
+		}
+		e.pathHist[sb.String()]++
+		e.mu.Unlock()
+	}
 }
 
 // schedule is called when the current thread has finished.
@@ -309,10 +332,35 @@ func (e *Engine) forkOn(st *State, cond *Term) (*State, *State) {
 		e.inconclusive("solver unknown at a branch in " + st.harness)
 	}
 	atomic.AddInt64(&e.stats.Forks, 1)
+	e.noteFork(st, 1)
 	s2 := st.clone()
 	st.assume(cond)
 	s2.assume(Not(cond))
 	return st, s2
+}
+
+func (e *Engine) noteFork(st *State, n int) {
+	if !e.verbose || n <= 0 {
+		return
+	}
+	where := "?"
+	if len(st.threads) > 0 && len(st.thread().frames) > 0 {
+		f := st.top()
+		if f.ip < len(f.blk.Instrs) {
+			where = f.fn.Name() + "@" + e.pos(f.blk.Instrs[f.ip].Pos())
+			if c, ok := f.blk.Instrs[f.ip].(ssa.CallInstruction); ok {
+				if callee := c.Common().StaticCallee(); callee != nil {
+					where += " -> " + callee.Name()
+				}
+			}
+		}
+	}
+	e.mu.Lock()
+	if e.forkHist == nil {
+		e.forkHist = map[string]int{}
+	}
+	e.forkHist[where] += n
+	e.mu.Unlock()
 }
 
 func (e *Engine) jump(st *State, f *Frame, to *ssa.BasicBlock) {
@@ -352,6 +400,13 @@ func (e *Engine) jump(st *State, f *Frame, to *ssa.BasicBlock) {
 	f.prev = f.blk
 	f.blk = to
 	f.ip = n
+	for i := len(st.stops) - 1; i >= 0; i-- {
+		sp := st.stops[i]
+		if sp.blk == to && sp.frameID == f.id && sp.thread == st.cur {
+			st.arrived = i + 1
+			break
+		}
+	}
 }
 
 // step executes one instruction. forked=true means the current run loop must stop and
@@ -432,6 +487,28 @@ func (e *Engine) step(st *State, f *Frame, instr ssa.Instruction) ([]*State, boo
 				e.jump(st, f, f.blk.Succs[1])
 			}
 			return nil, false
+		}
+		if e.merging && !e.inInit {
+			rt := st.check(c)
+			var rf Res
+			if rt == Unsat {
+				st.assume(Not(c))
+				e.jump(st, f, f.blk.Succs[1])
+				return nil, false
+			}
+			rf = st.check(Not(c))
+			if rf == Unsat {
+				st.assume(c)
+				e.jump(st, f, f.blk.Succs[0])
+				return nil, false
+			}
+			if rt == Unknown || rf == Unknown {
+				st.unknowns++
+				e.inconclusive("solver unknown at a branch in " + st.harness)
+			}
+			atomic.AddInt64(&e.stats.Forks, 1)
+			e.noteFork(st, 1)
+			return e.mergeIf(st, f, c), true
 		}
 		a, b := e.forkOn(st, c)
 		var out []*State
@@ -569,6 +646,11 @@ func (e *Engine) doReturn(st *State, res Value) {
 		f.defers = nil
 	}
 	th.frames = th.frames[:len(th.frames)-1]
+	if f.barrier {
+		st.sumDone = true
+		st.sumRes = res
+		return
+	}
 	if len(th.frames) == 0 {
 		th.done = true
 		return
@@ -582,6 +664,13 @@ func (e *Engine) doReturn(st *State, res Value) {
 		caller.regs[f.retTo] = res
 	}
 	caller.ip++
+	for i := len(st.stops) - 1; i >= 0; i-- {
+		sp := st.stops[i]
+		if sp.blk == nil && sp.frameID == f.id && sp.thread == st.cur {
+			st.arrived = i + 1
+			break
+		}
+	}
 }
 
 func (e *Engine) spawn(st *State, name string, fn Value, args []Value) {
@@ -725,6 +814,9 @@ func (e *Engine) callValue(st *State, fnv Value, args []Value, retTo ssa.Value, 
 	th := st.thread()
 	if len(th.frames) > 200 {
 		unm("call depth exceeded at %s", name)
+	}
+	if e.summarise[name] && !e.inInit {
+		return e.summariseCall(st, fn, args, fv.bind, retTo, advance)
 	}
 	nf := e.newFrame(fn, args, fv.bind, retTo)
 	th.frames = append(th.frames, nf)
@@ -1373,6 +1465,7 @@ func (e *Engine) forkMany(st *State, conds []*Term) []*State {
 			feas = append(feas, i)
 		}
 	}
+	e.noteFork(st, len(feas)-1)
 	for k, i := range feas {
 		s := st
 		if k < len(feas)-1 {
